@@ -57,7 +57,7 @@ CONDS = [[">", ["start", "t0"], 1], ["<=", ["end", "t0"], 2], True]
 
 def with_ids(node, counter):
     n = copy.deepcopy(node)
-    if n.get("kind") != "expr":
+    if n.get("kind") not in ("expr", "ref"):
         counter[0] += 1
         n["id"] = f"n{counter[0]}"
         for key in ("arg", "a", "b"):
@@ -187,6 +187,44 @@ def run_tt(case):
         if acc.sample is None:
             acc.sample = {"formula": formula, "candidate": c, "library_admits": got, "truth_table": want,
                           "leaf_verdicts": len(tt.cache)}
+    if not cs:
+        acc.empty_ok = True
+    return acc.result()
+
+
+def run_shared(case):
+    """one constraint OBJECT used as operand of two combinations: each combination means what its own truth table says"""
+    acc = common.Acc(PREFIXES)
+    spec = case["spec"]
+    rng = random.Random(case.get("rng", 0))
+    cs = [c for c in cd.enumerate_candidates(spec, wide=False, limit=5000, rng=rng)
+          if cd.classify(spec, c)[0] == "valid"]
+    if len(cs) > case["limit"]:
+        cs = rng.sample(cs, case["limit"])
+    s2 = copy.deepcopy(spec)
+    s2["constraints"] = s2["constraints"] + [copy.deepcopy(case["f1"]), copy.deepcopy(case["f2"])]
+    for c in cs:
+        tt = TT(acc, spec, c)
+        v1, v2 = tt.value(case["f1_plain"]), tt.value(case["f2_plain"])
+        res = pr.run_solve(s2, {"pins": pr.candidate_pins(s2, c)})
+        acc.executions += 1
+        got = {"sat": True, "unsat": False}.get(res["outcome"])
+        if v1 is None or v2 is None or got is None:
+            if res["outcome"] in ("build_error", "exception"):
+                acc.violation("C10.exception", "exception", {"connective": "shared", "exc": res["exc"].get("type")},
+                              {"exc": res["exc"], "f1": case["f1"], "f2": case["f2"]})
+            else:
+                acc.inconclusive.append(f"unknown leaf or formula ({res['outcome']})")
+            continue
+        want = v1 and v2
+        acc.sigs.add(common.h([case["f1"], case["f2"], cd.cand_key(c)]))
+        acc.count(acc.clauses, f"C10.shared_operand.{'T' if v1 else 'F'}{'T' if v2 else 'F'}:{'T' if got == want else 'F'}")
+        if got != want:
+            acc.violation("C10.shared_operand", "laxer" if got else "stricter",
+                          {"first": case["f1"]["kind"], "second": case["f2"]["kind"]},
+                          {"f1": case["f1"], "f2": case["f2"], "cand": c, "library": got, "truth_tables": [v1, v2]})
+        if acc.sample is None:
+            acc.sample = {"f1": case["f1"], "f2": case["f2"], "candidate": c, "library_admits": got, "truth_tables": [v1, v2]}
     if not cs:
         acc.empty_ok = True
     return acc.result()
@@ -340,6 +378,28 @@ def generate(tier, seed):
                           "spec": dict(spec, constraints=[copy.deepcopy(fo), other, {
                               "id": "fa", "kind": "ForceApplyNOptionalConstraints", "constraints": ["o0", "o1"], "n": n,
                               "mode": mode}]), "limit": 5 if tier == "quick" else 60, "rng": seed + fi})
+    # shared operands: the same constraint object under two combinations
+    spec = base_spec(False)
+    plain = [x for x in leaf_pool(False) if x["kind"] != "expr"]
+    for si in range(4 if tier == "quick" else 12):
+        A, B, C = (copy.deepcopy(plain[(si + k) % len(plain)]) for k in (0, 1, 2))
+        c1, c2 = CONDS[si % 2], CONDS[(si + 1) % 2]
+        firsts = [{"kind": "Implies", "cond": c1, "args": [A, B]}, {"kind": "And", "args": [A, B]},
+                  {"kind": "IfThenElse", "cond": c1, "then": [A, B], "else": [C]}]
+        for fi, f1_plain in enumerate(firsts):
+            f1 = with_ids(copy.deepcopy(f1_plain), [0])
+            a_id = (f1.get("args") or f1.get("then"))[0]["id"]
+            ref = {"kind": "ref", "id": a_id}
+            seconds = [({"kind": "Implies", "cond": c2, "args": [ref, C]}, {"kind": "Implies", "cond": c2, "args": [A, C]}),
+                       ({"kind": "Or", "args": [{"kind": "Not", "arg": ref}, C]},
+                        {"kind": "Or", "args": [{"kind": "Not", "arg": A}, C]}),
+                       ({"kind": "Xor", "a": ref, "b": C}, {"kind": "Xor", "a": A, "b": C})]
+            for gi, (f2, f2_plain) in enumerate(seconds):
+                if tier == "quick" and (si + fi + gi) % 2:
+                    continue
+                cases.append({"cid": f"shared-{si}-{fi}-{gi}", "family": "shared-operand", "kind": "shared", "spec": spec,
+                              "f1": f1, "f1_plain": f1_plain, "f2": with_ids(copy.deepcopy(f2), [50]),
+                              "f2_plain": f2_plain, "limit": 10 if tier == "quick" else 80, "rng": seed + si})
     # expressions
     exprs = [["<", ["+", ["start", "t0"], ["duration", "t1"]], 3], ["==", ["*", ["start", "t1"], 2], ["end", "t1"]],
              ["or", ["<", ["end", "t0"], ["start", "t1"]], [">", ["start", "t0"], ["end", "t1"]]],
@@ -376,6 +436,8 @@ def run_case(case):
         return run_optional(case)
     if k == "expr":
         return run_expr(case)
+    if k == "shared":
+        return run_shared(case)
     return common.run_generic(case, PREFIXES)
 
 
